@@ -19,7 +19,7 @@ META = {
                   "read_json_data of BaseProduct/BaseWorkflow/BaseOrganization", "all model constructors"] + SIM_FUNCTIONS[:2],
     "stubs": STUB_NOTES + ["json.dump/json.load + open in pDESy.model.base_project: in-memory store with JSON normalisation (tuple->list, keys->str, IntEnum->int, TypeError otherwise); "
                            "float() in pDESy.model.base_task: identity on solver reals; replays use the real json module and real files"],
-    "assumptions": profiles.ASSUMPTIONS + ["constructor parameters documented as 'advanced customized simulation' (error_tolerance, quality_skill_*, additional_work_amount, ...) and derived back references "
+    "assumptions": profiles.ASSUMPTIONS + ["constructor parameters documented as 'advanced customized simulation' that the base simulation never reads (error_tolerance, additional_work_amount, additional_task_flag, actual_work_amount) and derived back references "
                                            "(parent_workflow, parent_product) are excluded from the injectivity obligation; the exclusion list is EXCLUDED below"],
     "bounds": {"quick": {"members": "2-3 tasks, <= 2 workers, optional facility/component/sub-project task", "pause step": "0..5", "numeric edge values": "0, 0.0 (as int), -1 included in ranges"},
                "thorough": {"members": "same + nested component", "pause step": "0..8"}},
@@ -30,7 +30,7 @@ REQUIRED_COVERS = {"any": ["stage:never", "stage:paused", "stage:forward", "stag
 EXCLUDED = {
     "BaseTask": ["parent_workflow", "additional_work_amount", "additional_task_flag", "actual_work_amount"],
     "BaseComponent": ["parent_product", "error_tolerance", "error"],
-    "BaseWorker": ["quality_skill_mean_map", "quality_skill_sd_map"],
+    "BaseWorker": [],  # (the quality skills drive component.error in BaseTask.perform: simulation-relevant, so they are not excluded)
     "BaseFacility": [],
     "BaseTeam": [],
     "BaseWorkplace": [],
@@ -273,7 +273,7 @@ def _two_values(cls, name, p):
         return "x1", "x2"
     if name in ("need_facility", "auto_task", "solo_working", "read_json_file", "remove_absence_time_list"):
         return False, True
-    if name in ("workamount_skill_mean_map", "workamount_skill_sd_map", "facility_skill_map"):
+    if name in ("workamount_skill_mean_map", "workamount_skill_sd_map", "facility_skill_map", "quality_skill_mean_map", "quality_skill_sd_map"):
         return {"k": a}, {"k": b}
     if name in ("absence_time_list",):
         return [1], [2]
